@@ -24,6 +24,10 @@ type progGen struct {
 	// weights (0..10) of statement families
 	wIf, wLoop, wAssign, wCtl int
 	fewFailures               bool
+	// component files generated on the way (nil: no component uses)
+	comps  refint.Files
+	wComp  int
+	inComp bool // inside a component file or slot body: no further uses (only uses written in a page are in the domain)
 	// what the program contains, for non-triviality rules
 	Feat map[string]int
 }
@@ -178,7 +182,7 @@ func (g *progGen) literalOf(k refint.Kind) *tw.Expr {
 
 func (g *progGen) assign() *tw.Stmt {
 	name := rapid.SampledFrom(assignNames).Draw(g.rt, "aname")
-	if rapid.IntRange(0, 30).Draw(g.rt, "assignLoop") == 0 {
+	if rapid.IntRange(0, 30).Draw(g.rt, "assignLoop") == 0 && (g.comps == nil || rapid.IntRange(0, 4).Draw(g.rt, "assignLoop2") == 0) {
 		name = "loop"
 		g.Feat["assign-loop"]++
 	}
@@ -208,8 +212,81 @@ func (g *progGen) assign() *tw.Stmt {
 	return tw.Assign(name, val)
 }
 
+// compStmt generates a component use together with its file: the file is a
+// block of its own (arguments bound in it, the caller's names visible), a slot
+// body is a block at the placeholder's position.
+func (g *progGen) compStmt(depth int) *tw.Stmt {
+	name := fmt.Sprintf("k%d", len(g.comps))
+	g.comps[name] = []*tw.Stmt{}
+	st := &tw.Stmt{Kind: tw.SComponent, Name: name}
+	g.Feat["component"]++
+	loopDepth, eachBody := g.loopDepth, g.eachBody
+	g.loopDepth, g.eachBody, g.inComp = 0, false, true
+	var keys []string
+	var vals []*tw.Expr
+	kinds := map[string]refint.Kind{}
+	for _, a := range assignNames {
+		if rapid.IntRange(0, 3).Draw(g.rt, "passArg") != 0 {
+			continue
+		}
+		old, visible := g.visibleKind(a)
+		k := rapid.SampledFrom([]refint.Kind{refint.KInt, refint.KStr, refint.KBool, refint.KArr}).Draw(g.rt, "argKind")
+		if visible {
+			g.Feat["arg-named-like-visible"]++
+			if rapid.IntRange(0, 6).Draw(g.rt, "argKeepType") > 0 {
+				k = old
+			}
+		}
+		keys = append(keys, a)
+		vals = append(vals, g.literalOf(k))
+		kinds[a] = k
+	}
+	if len(keys) > 0 || rapid.Bool().Draw(g.rt, "emptyArgObj") {
+		st.Arg = tw.Obj(keys, vals)
+	}
+	g.push()
+	for a, k := range kinds {
+		if old, visible := g.visibleKind(a); !visible || old == k {
+			g.scopes[len(g.scopes)-1][a] = k
+		}
+	}
+	g.sync()
+	body := append([]*tw.Stmt{tw.Text("<" + name + ">")}, g.block(depth-1, false)...)
+	if rapid.Bool().Draw(g.rt, "withSlot") {
+		body = append(body, &tw.Stmt{Kind: tw.SSlot, Name: ""})
+		if rapid.IntRange(0, 3).Draw(g.rt, "passSlot") > 0 {
+			g.push()
+			sb := g.block(depth-1, false)
+			g.pop()
+			g.Feat["slot-body"]++
+			st.Slots = append(st.Slots, &tw.Stmt{Kind: tw.SSlot, Name: "", Body: sb, Text: rapid.SampledFrom([]string{"\n", " ", ""}).Draw(g.rt, "slotWs")})
+			st.Text = rapid.SampledFrom([]string{"\n", "", " "}).Draw(g.rt, "endWs")
+		}
+		body = append(body, g.block(depth-1, false)...)
+	}
+	body = append(body, tw.Text("</"+name+">"))
+	g.pop()
+	g.loopDepth, g.eachBody, g.inComp = loopDepth, eachBody, false
+	g.comps[name] = body
+	return st
+}
+
 func (g *progGen) read() *tw.Stmt {
 	name := rapid.SampledFrom(assignNames).Draw(g.rt, "rname")
+	if g.comps != nil && rapid.IntRange(0, 3).Draw(g.rt, "readVisible") > 0 {
+		// programs with component files are long: keep most reads bound
+		for _, n := range assignNames {
+			if _, ok := g.visibleKind(n); ok {
+				name = n
+				if rapid.Bool().Draw(g.rt, "thisOne") {
+					break
+				}
+			}
+		}
+	}
+	if _, ok := g.visibleKind(name); !ok && g.comps != nil && rapid.IntRange(0, 9).Draw(g.rt, "keepUnbound") > 0 {
+		return g.mark()
+	}
 	g.Feat["read"]++
 	if _, ok := g.visibleKind(name); !ok {
 		g.Feat["read-unbound"]++
@@ -449,8 +526,13 @@ func (g *progGen) block(depth int, _ bool) []*tw.Stmt {
 			wCtl *= 2
 		}
 		total := 4 + g.wIf + g.wLoop + g.wAssign + wCtl
+		if g.comps != nil && depth > 0 && !g.inComp {
+			total += g.wComp
+		}
 		x := rapid.IntRange(0, total-1).Draw(g.rt, "stmtFamily")
 		switch {
+		case x >= 4+g.wIf+g.wLoop+g.wAssign+wCtl:
+			out = append(out, g.compStmt(depth), tw.Text(";"))
 		case x < 2:
 			out = append(out, g.mark())
 		case x < 3:
